@@ -26,6 +26,11 @@ theorem known_incoherent :
     ∀ c ∈ knownIncoherent, ∃ r ∈ Generated.gateIdentity, r.cls = c ∧ coherent r = false := by
   decide +kernel
 
+theorem repaired_coherent :
+    ∀ c ∈ ["CircuitGate", "TaggedGate"], c ∉ knownIncoherent ∧
+      ∃ r ∈ Generated.gateIdentity, r.cls = c ∧ r.hashBy ≠ "object" ∧ coherent r = true := by
+  decide +kernel
+
 /-! ## Semantics -/
 
 /-- values of attributes, hash keys, the meaning of every comparison and hash function -/
@@ -119,6 +124,7 @@ def listSem : Sem where
     | .orderedItems, x => x
     | .corner, x => x.take 1
     | .opsHash, x => x.map (· / 2)
+    | .hashOrDrop, x => x.mergeSort (fun a b => decide (a ≤ b))
     | .const, _ => []
     | .guard, _ => []
     | .unknown, x => x
